@@ -15,6 +15,7 @@ RULE = (
     "for every field: reference DFT, Parseval, k-grid for every spacing/origin of the menu, 3 scalings, all cyclic shifts, all axis "
     "reflections, all axis permutations, smoothed variant at requested wave numbers with and without zero mode; "
     "non-trivial = field is not constant"
+    "; the analysed field object must stay unmodified and give the same answer again; grid-sequence histories (2-3 grids of equal shape, every order, fresh fork)"
 )
 ASSUMPTIONS = [
     "periodic Cartesian grids only (the function's domain); field values from the alphabet; sizes up to 18 cells",
